@@ -1404,6 +1404,9 @@ class Executor:
             if attr in base.fields:
                 return base.fields[attr]
             if base.abstract:
+                r = self.models.obj_attr(self, base, attr, node)
+                if r is not None:
+                    return r
                 return BoundExt(base, attr)
             if base.cls is not None:
                 f = self.P.lookup_method(base.cls, attr)
